@@ -285,6 +285,9 @@ impl Ctx {
             }
             Err(Stop::Fail { sig, detail }) => {
                 if self.is_known(sig) {
+                    if std::env::var("SQV_DEBUG_KNOWN").is_ok() && st.excluded_known.get(sig).copied().unwrap_or(0) < 2 {
+                        eprintln!("excluded-known {sig}: {detail}");
+                    }
                     *st.excluded_known.entry(sig.clone()).or_default() += 1;
                     None
                 } else {
